@@ -11,7 +11,11 @@ THEOREMS = ["LNN.C06_sweep_zero_fix",
             "LNN.C06_terminates",
             "LNN.C06_terminates_two_N",
             "LNN.C06_terminates_exists",
-            "LNN.C06_pInfer_is_fInfer"]
+            "LNN.C06_pInfer_is_fInfer",
+            "LNN.C06_fol_fixpoint",
+            "LNN.C06_fol_any_schedule",
+            "LNN.C06_fol_infer_again",
+            "LNN.C06_fol_runExact_of_eps_zero"]
 MODULES = ["LnnVerif.Props.C06"]
 FACETS = {"bounds", "reported"}
 MAXS = 200
